@@ -11,6 +11,9 @@ import EaselModel.Sqio.ParseFasta
 import EaselModel.Sqio.Totality
 import EaselModel.Sqio.SpecFasta
 import EaselModel.Sqio.WindowSeries
+import EaselModel.Sqio.BlockSpec
+import EaselModel.Sqio.RoundTrip
+import EaselModel.Sqio.LineSpec
 /-! # C04 — all ways of reading a sequence file agree with each other and with the file
 
 Property theorems only (proofs are glue on `Sqio/Windows.lean`, `Sqio/Refine.lean`, `Sqio/Spec.lean`).
@@ -26,7 +29,7 @@ description, residues, true `roff` / `hoff` / `doff` / `eoff`, `L`), hence is bl
 `ReadSequence` agree field by field (`read_readInfo_readSequence_agree`); the forward `ReadWindow` series delivers the residues of
 `Read` (`windows_concat_eq_read`, see the section at the end); the window schedule (forward and reverse) tiles `1..L`
 (`fwd_windows_tile`, `rev_windows_tile`). Still tied by the exact differential run + monitors only: the line-based formats,
-reverse-strand windows end to end, `ReadBlock`, write + re-read (`writeFasta_keeps_residues_partial` is the residue-level part). -/
+reverse-strand windows end to end, long-target `ReadBlock`, digital-mode write + re-read (text mode: `write_read_roundtrip`). -/
 namespace EaselModel.Props.C04
 open EaselModel.Sqio EaselModel.Sqio.Windows
 
@@ -88,9 +91,8 @@ theorem nextchar_block_size_independent (a : Ascii) (c : UInt8) (h : Refine.WF a
 
 /-- **Write + re-read, residue level**: the data lines `esl_sqascii_WriteFasta` writes (60 residues per line), with the newlines
     taken out again, are exactly the residues - for every sequence not containing a newline byte, of any length.
-    `write_read_roundtrip_partial`: that the reader then returns them (and name / description) is tied by the `roundtrip` op of the
-    differential run (model bytes = implementation bytes, re-read records = original records). -/
-theorem writeFasta_keeps_residues_partial (res : List UInt8) (hnl : ∀ x ∈ res, x ≠ chNl) :
+    (The whole statement — the reader returns name, description and residues of what the writer wrote — is `write_read_roundtrip` below.) -/
+theorem writeFasta_keeps_residues (res : List UInt8) (hnl : ∀ x ∈ res, x ≠ chNl) :
     (chunk60 res (res.length + 1)).filter (fun x => x != chNl) = res :=
   Spec.chunk60_filter (res.length + 1) res (Nat.lt_succ_self _) hnl
 
@@ -419,5 +421,115 @@ example :
     r.1.map toWin = [⟨1, 3, 0, 3, #[65, 67, 71]⟩, ⟨3, 4, 1, 1, #[71, 84]⟩] ∧ r.2.2.2 = Status.eod ∧ r.2.2.1.L = 4 ∧
     (read a (freshSq 0).reuse).2.1.seq = #[65, 67, 71, 84] ∧ (read a (freshSq 0).reuse).2.2 = Status.ok := by
   decide +kernel
+
+
+/-! ## `sqascii_ReadBlock`, whole-sequence mode (round 4) -/
+
+open EaselModel.Sqio.BlockSpec EaselModel.Sqio.SpecFasta in
+/-- **`ReadBlock` (not `long_target`) delivers the records of `Read`, for every block size `B ≥ 1`.** From a ready handle and a block whose
+    slots are as `esl_sq_Reuse` leaves them (each slot with its own allocations): slot `k` holds — name, description, residues, `roff` /
+    `hoff` / `doff` / `eoff`, `L` — the `k`-th record of `specBlock` (records of the declarative `specOne` while fewer than `max_sequences`
+    records and fewer than `MAX_RESIDUE_COUNT` residues were taken), `count` says how many, these records are a prefix of what a `Read`
+    loop yields from the same cursor (`specAll` = the loop of `specFasta`); the status is `eslOK` when at least one record was read,
+    else the reader's `eslEOF` / `eslEFORMAT`; never `fault`. -/
+theorem readBlock_short_eq_read (dig : Bool) (abc : Nat) (a : Ascii) (b : Block) (maxRes maxSeq : Int) (maxInit : Bool)
+    (H : HReady a (if dig then abcInmap abc else a.inmap)) (hls : b.listSize ≤ b.list.size)
+    (hslot : ∀ j, j < blockMaxSeq b maxSeq → SlotOk dig abc (b.list.getD j {})) :
+    (readBlock a b maxRes maxSeq maxInit false).2.2 =
+      (if (specBlock a.inmap (if dig then abcInmap abc else a.inmap) a.file.size (fuelOf a) 0 0 (blockMaxSeq b maxSeq) .ok (DataScan.fileFrom a)).2.1 == .eof &&
+          (specBlock a.inmap (if dig then abcInmap abc else a.inmap) a.file.size (fuelOf a) 0 0 (blockMaxSeq b maxSeq) .ok (DataScan.fileFrom a)).1.length > 0
+       then .ok
+       else (specBlock a.inmap (if dig then abcInmap abc else a.inmap) a.file.size (fuelOf a) 0 0 (blockMaxSeq b maxSeq) .ok (DataScan.fileFrom a)).2.1) ∧
+    (readBlock a b maxRes maxSeq maxInit false).2.1.count =
+      (specBlock a.inmap (if dig then abcInmap abc else a.inmap) a.file.size (fuelOf a) 0 0 (blockMaxSeq b maxSeq) .ok (DataScan.fileFrom a)).1.length ∧
+    (∀ k r, (specBlock a.inmap (if dig then abcInmap abc else a.inmap) a.file.size (fuelOf a) 0 0 (blockMaxSeq b maxSeq) .ok (DataScan.fileFrom a)).1[k]? = some r →
+      toRecord ((readBlock a b maxRes maxSeq maxInit false).2.1.list.getD k {}) = r) ∧
+    (readBlock a b maxRes maxSeq maxInit false).2.1.complete = true ∧
+    (readBlock a b maxRes maxSeq maxInit false).2.2 ≠ .fault ∧
+    (specBlock a.inmap (if dig then abcInmap abc else a.inmap) a.file.size (fuelOf a) 0 0 (blockMaxSeq b maxSeq) .ok (DataScan.fileFrom a)).1 <+:
+      (specAll a.inmap (if dig then abcInmap abc else a.inmap) a.file.size (fuelOf a) (DataScan.fileFrom a)).1 :=
+  BlockSpec.readBlock_short_spec dig abc a b maxRes maxSeq maxInit H hls hslot
+
+open EaselModel.Sqio.ParseFasta EaselModel.Sqio.SpecFasta in
+/-- non-vacuity, on the executable model: `>a\nAC\nGT\n>b\nG\n>c\nT\n` (B = 3, text mode), a block of two slots: two records (`a` =
+    `ACGT`, `b` = `G`), status `eslOK`; the next call delivers `c` -/
+example :
+    let a := openFasta #[62, 97, 10, 65, 67, 10, 71, 84, 10, 62, 98, 10, 71, 10, 62, 99, 10, 84, 10] 3 0
+    let b : Block := { listSize := 2, list := #[freshSq 0, freshSq 0] }
+    let r := readBlock a b (-1) (-1) false false
+    r.2.2 = Status.ok ∧ r.2.1.count = 2 ∧ (r.2.1.list.toList.map (fun s => (toRecord s).name)) = [[97], [98]] ∧
+    (r.2.1.list.toList.map (fun s => (toRecord s).seq)) = [[65, 67, 71, 84], [71]] := by
+  decide +kernel
+
+
+/-! ## Write + re-read (round 4) -/
+
+open EaselModel.Sqio.RoundTrip EaselModel.Sqio.SpecFasta in
+/-- **Writing records out as FASTA and re-reading reproduces them (text mode), for every block size.** For every list of writable records
+    (`Good`: non-empty name without white space; description without end-of-line / ctrl-A bytes, not starting with a blank; residues the
+    FASTA input map accepts): the text `allText rs` (= the concatenation of what `esl_sqascii_WriteFasta` writes, `writeFasta_is_fastaText`)
+    is parsed by `specFasta 0` — which by `read_all_eq_specFasta` is what `sqascii_Read` returns for every `B ≥ 1` — into exactly these
+    names, descriptions and residues (`expected`: plus the offsets of the 60-column layout and `L`), followed by `eslEOF`. -/
+theorem write_read_roundtrip (rs : List (List UInt8 × List UInt8 × List UInt8)) (hg : ∀ r ∈ rs, Good (inmapFasta 0) r) :
+    specFasta 0 (allText rs) = (expected (inmapFasta 0) (allText rs).length rs, .eof) ∧
+    (expected (inmapFasta 0) (allText rs).length rs).map (fun x => (x.name, x.desc, x.seq)) = rs := by
+  refine ⟨specFasta_allText rs hg, ?_⟩
+  generalize (allText rs).length = N
+  induction rs with
+  | nil => rfl
+  | cons r rs ih =>
+    simp only [expected, List.map_cons, ih (fun r' hr' => hg r' (by simp [hr'])),
+      text_map_id_list r.2.2 (hg r (by simp)).res]
+
+open EaselModel.Sqio.RoundTrip in
+/-- `allText` is made of what the model of `esl_sqascii_WriteFasta` writes (text mode, no accession, strings without NUL) -/
+theorem writeFasta_is_fastaText (sq : Sq) (hd : sq.digital = false) (ha : cstr sq.acc = #[]) (hn : cstr sq.name = sq.name)
+    (hds : cstr sq.desc = sq.desc) : writeFasta sq = fastaText sq.name.toList sq.desc.toList sq.seq.toList :=
+  RoundTrip.writeFasta_text sq hd ha hn hds
+
+open EaselModel.Sqio.RoundTrip EaselModel.Sqio.SpecFasta in
+/-- non-vacuity: two writable records (`a` / `x y` / 61 residues — two data lines — and `b` / no description / no residues) -/
+example : Good (inmapFasta 0) ([97], [120, 32, 121], List.replicate 61 65) ∧ Good (inmapFasta 0) ([98], [], []) := by
+  refine ⟨⟨by decide, by decide, by decide, ?_, ?_⟩, ⟨by decide, by decide, by decide, ?_, by decide⟩⟩
+  · intro c t h; have := (List.cons.inj h).1; rw [← this]; decide
+  · skip
+    intro c hc
+    have : c = 65 := by simpa using List.eq_of_mem_replicate hc
+    subst this; decide +kernel
+  · intro c t h; cases h
+
+
+/-! ## The line-based formats (EMBL / UniProt / GenBank / DDBJ), round 4: the line loader is block-size independent -/
+
+open EaselModel.Sqio.LineSpec in
+/-- **`loadbuf` in line mode delivers the next line of the FILE, for every read-block size `B ≥ 1`** (the `memchr` / `while (nlp == NULL)`
+    loop that glues a line together from as many `fread` blocks as it takes): the line buffer is `nextLine rest` — the bytes of the file
+    behind the current line up to and including the first `\n`, or all that is left —, `boff` is the true offset of its first byte,
+    `nc` its length, the status is `eslEOF` exactly when nothing is left, never `fault`; `B` does not occur. -/
+theorem loadbuf_line_closed_form (a : Ascii) (h : LWF a) :
+    LWF (loadbuf a).1 ∧ keepL (loadbuf a).1 = keepL a ∧
+    (loadbuf a).1.line.toList = (nextLine (a.file.toList.drop (a.boff.toNat + a.nc))).1 ∧
+    (loadbuf a).1.nc = (nextLine (a.file.toList.drop (a.boff.toNat + a.nc))).1.length ∧
+    (loadbuf a).1.boff = a.boff + a.nc ∧ (loadbuf a).1.bpos = 0 ∧
+    (loadbuf a).2 = (if a.file.toList.drop (a.boff.toNat + a.nc) = [] then .eof else .ok) ∧
+    a.file.toList.drop ((loadbuf a).1.boff.toNat + (loadbuf a).1.nc) = (nextLine (a.file.toList.drop (a.boff.toNat + a.nc))).2 :=
+  LineSpec.loadbuf_line a h
+
+open EaselModel.Sqio.LineSpec in
+/-- two line-mode handles on one file with any two block sizes, standing on the same line: after `loadbuf` they stand on the same next
+    line (same bytes, same offset, same status) — the simulation that every reader of the line-based formats preserves, since these
+    readers touch the handle only through `loadbuf`, the line buffer, `nc` and `boff` -/
+theorem loadbuf_line_block_size_independent {a1 a2 : Ascii} (h : LSim a1 a2) :
+    LSim (loadbuf a1).1 (loadbuf a2).1 ∧ (loadbuf a1).2 = (loadbuf a2).2 := LineSpec.loadbuf_lsim h
+
+open EaselModel.Sqio.LineSpec in
+/-- the handle `esl_sqfile_Open` yields for a line-based format satisfies the invariant and stands on the first line, for every `B ≥ 1` -/
+theorem open_line_based (file : Bytes) (B abc fmt : Nat) (eofOk : Bool) (inmap : Bytes) (hB : 1 ≤ B) :
+    LWF (loadbuf { file := file, B := B, abc := abc, fmt := fmt, eofIsOk := eofOk, linebased := true, inmap := inmap }).1 ∧
+    (loadbuf { file := file, B := B, abc := abc, fmt := fmt, eofIsOk := eofOk, linebased := true, inmap := inmap }).1.line.toList =
+      (nextLine file.toList).1 ∧
+    (loadbuf { file := file, B := B, abc := abc, fmt := fmt, eofIsOk := eofOk, linebased := true, inmap := inmap }).1.boff = 0 ∧
+    (loadbuf { file := file, B := B, abc := abc, fmt := fmt, eofIsOk := eofOk, linebased := true, inmap := inmap }).2 =
+      (if file.toList = [] then .eof else .ok) := LineSpec.open_line file B abc fmt eofOk inmap hB
 
 end EaselModel.Props.C04
